@@ -384,7 +384,7 @@ pub fn contracts() -> Vec<Contract> {
             search: search_proofs, rerun: rerun_proof },
         Contract { name: "proofs.honest_replication", covers: &["MerkleTree::missing_nodes", "MerkleTree::create_valueless_proof", "MerkleTree::verify_proof", "fn verify_tree", "fn verify_upgrade", "MerkleTree::byte_offset_in_changeset",
             "MerkleTree::commit", "MerkleTreeChangeset::append_root", "MerkleTreeChangeset::append", "MerkleTreeChangeset::hash_and_sign",
-            "Oplog::update_header_with_changeset", "Oplog::append_changeset", "MerkleTree::seek_proof", "MerkleTree::block_and_seek_proof"],
+            "Oplog::update_header_with_changeset", "Oplog::append_changeset", "MerkleTree::seek_proof", "MerkleTree::block_and_seek_proof", "Hypercore::verify_and_apply_proof"],
             search: search_honest, rerun: rerun_honest },
         Contract { name: "e2e.replica_contiguous", covers: &["fn update_contiguous_length", "DynamicBitfield::index_of", "DynamicBitfield::set", "DynamicBitfield::get", "Hypercore::verify_and_apply_proof"],
             search: search_contiguous, rerun: rerun_contiguous },
